@@ -117,6 +117,20 @@ Definition dispatch (req : sx) : sx :=
     let table := g_secs a7 in
     sx_res SB (read_dwarf_section_file (gbool a1) (gbool a2) (gI a3) (gB a4) (gI a5) (gI a6) table
                                        (nth_sec table (gI (nthx 8 l))) (gbool (nthx 9 l)))
+  else if op =? "enc_sym_t" then         (* le is64 name value typ bind shndx *)
+    SB (encode_layout (spec_Elf_Sym (gbool a1) (gbool a2))
+                      (sym_vals_of (gbool a2) (gI a3) (gI a4) 0 (gI a6) (gI a5) 0 0 (gI a7)))
+  else if op =? "model_no_family" then   (* em -> no recipe table is reachable for this machine, either flavour *)
+    sx_bool (match family_of (reloc_dispatch (machine_arch (gI a1)) true),
+                   family_of (reloc_dispatch (machine_arch (gI a1)) false) with
+             | None, None => true | _, _ => false end)
+  else if op =? "model_dwarf_link" then  (* has_link has_own crc_ok (le is64 em img secs secidx) (same, own file) flag *)
+    let rd (f : sx) (flag : bool) :=
+      let fl := gL f in
+      let secs := g_secs (nthx 4 fl) in
+      read_dwarf_section (gbool (nthx 0 fl)) (gbool (nthx 1 fl)) (gI (nthx 2 fl)) (gB (nthx 3 fl)) secs
+                         (nth_sec secs (gI (nthx 5 fl))) flag in
+    sx_res SB (dwarf_via_debuglink (gbool a1) (gbool a2) (gbool a3) (rd a4) (rd a5) (gbool a6))
   else if op =? "model_dwarf_seq" then  (* le is64 em img secs secidx flags -> ((results...) image-unchanged) *)
     let secs := g_secs a5 in
     let img := gB a4 in
